@@ -169,7 +169,7 @@ class Ctx:
         """the activation's own trace of traced calls: fn(k) is the k-th record (a function of the pre-state), `length`
         an upper bound for every exit, `normal_len` the exact number of records on a normal return (None: not fixed).
         With predicate=True, fn(k, record, state) is a condition on the k-th record instead."""
-        self.out.trace_spec = (fn, length, length if normal_len == 'same' else normal_len, predicate)
+        self.out.trace_spec = (fn, length, length if isinstance(normal_len, str) and normal_len == 'same' else normal_len, predicate)
     def returns(self, pv):
         """fix the result to a specific value"""
         self.out.result_pv = pv
